@@ -863,6 +863,7 @@ func Run(r *fw.Run) {
 		}
 		fills = append(fills, "%s", "%d", "é", "\u212a", "\ufffd", "\u2028", "\u0085", "\xe2\x82", "\r\n", "\n\n")
 		fills = append(fills, enum.LongFills('r')...)
+		fills = append(fills, enum.BoundaryRunes()...)
 		r.Bounds["record_text_byte_sweep"] = fmt.Sprintf("6 slots x (256 byte values + %d other fills) x %d ids x %d tails", len(fills)-256, len(ids), len(tails))
 		for _, sl := range [][2]string{{"", "a\n"}, {"a", "b\n"}, {"a", "\n"}, {"a\n", "b\n"}, {"a\nb", "\n"}, {"", ""}} {
 			for _, f := range fills {
